@@ -62,7 +62,8 @@ def fnm(pat, name):
 # ------------------------------------------------------------------------------------------------
 # Pattern classes (purely syntactic; these define the domains of the known findings)
 
-SIG_SHORT = "panic:short-section-pattern"
+SIG_SHORT = "rejects:short-section-pattern"     # until /repo 25aa3b1 this was a panic (SIG_SHORT_PANIC)
+SIG_SHORT_PANIC = "panic:short-section-pattern"
 SIG_META4 = "placement:meta-in-first-4-bytes"
 SIG_ESC = "placement:backslash-in-glob"
 SIG_POSIX = "placement:posix-class"
@@ -465,7 +466,7 @@ def placements(path):
 
 def panic_signature(err):
     if "Prefixes of length less than 4" in err:
-        return SIG_SHORT
+        return SIG_SHORT_PANIC
     m = re.search(r"panicked at ([^\s:]+):\d+:\d+:\s*\n?(.*)", err)
     if m:
         msg = re.sub(r"\d+", "N", m.group(2).strip())[:50]
@@ -595,6 +596,9 @@ class C15(Check):
         if w.rc != 0:
             info["classes"].append("wild-clean-error")
             last = w.err.strip().split("\n")[-1] if w.err.strip() else ""
+            if "shorter than 4 bytes" in w.err:
+                raise Violation(SIG_SHORT, "GNU ld accepts the script; wild rejects a section-name pattern shorter than 4 "
+                                f"bytes: {last[:200]}", {"script": script})
             if not w.err.lstrip().startswith("wild: error"):
                 raise Violation("diagnostic:not-an-error-message", f"wild failed (rc={w.rc}) without a `wild: error` "
                                 f"diagnostic: {w.err[:200]!r}", {"script": script})
